@@ -24,6 +24,7 @@ class OutsideSubset(Exception):
 
 
 _counter = itertools.count()
+BINDERS: list = []   # bound variables of the enclosing quantifiers / comprehensions (innermost last)
 
 
 def qforall(vs, body, patterns=None):
@@ -57,6 +58,12 @@ class Sort:
     raise NotImplementedError
 
   def const(self, hint='v'):
+    """A fresh value of this sort. Under binders (quantifier bodies, comprehension elements) the
+    fresh value is a fresh FUNCTION of the bound variables (a skolem function), so that defining
+    axioms of derived values stay meaningful when they are universally closed."""
+    if BINDERS:
+      f = z3.Function(fresh_name(hint), *[b.sort() for b in BINDERS], self.z3())
+      return f(*BINDERS)
     return z3.Const(fresh_name(hint), self.z3())
 
   def wf(self, t):
